@@ -303,8 +303,13 @@ const PIN_NAMES: &[&str] = &[
 ];
 
 pub fn gen_circuit(r: &mut Prng) -> Circuit {
-    let n = r.below(6) + 1;
-    let mut names: Vec<&str> = PIN_NAMES.to_vec();
+    // one circuit in sixty is big: hundreds of pins, dozens of tests
+    let big = r.chance(1, 60);
+    let n = if big { 70 + r.below(230) } else { r.below(6) + 1 };
+    let mut names: Vec<String> = PIN_NAMES.iter().map(|s| s.to_string()).collect();
+    if big {
+        names.extend((0..n).map(|i| format!("P{i}")));
+    }
     r.shuffle(&mut names);
     let mut pins = vec![];
     for name in names.iter().take(n) {
@@ -343,7 +348,7 @@ pub fn gen_circuit(r: &mut Prng) -> Circuit {
     // tests whose headers are built from the pins (mostly)
     let ins: Vec<String> = pins.iter().filter(|p| p.kind == "In" || p.kind == "Clock").filter_map(|p| p.label.clone()).filter(|l| !l.is_empty()).collect();
     let outs: Vec<String> = pins.iter().filter(|p| p.kind == "Out").filter_map(|p| p.label.clone()).filter(|l| !l.is_empty()).collect();
-    let nt = r.below(4);
+    let nt = if big { 5 + r.below(36) } else { r.below(4) };
     let mut tests = vec![];
     for k in 0..nt {
         let mut hdr: Vec<String> = vec![];
